@@ -118,7 +118,10 @@ macro_rules! backend_cases5 {
                 let mis = kv.g("mis");
                 let win = kv.0.get("win").and_then(|s| s.parse::<usize>().ok());
                 let module: Module<BE> = Module::<BE>::new(kv.g("n") as u64);
-                let tb: usize = tb_of(&module, op, kv)?;
+                let tb: usize = match tb_of(&module, op, kv) {
+                    Some(t) => t,
+                    None => return crate::scratch_cases6::$modname::case(op, kv),
+                };
                 if kv.g("tbonly") == 1 || op.starts_with("ckks_") {
                     return Some(format!("tb={tb}"));
                 }
